@@ -14,6 +14,12 @@ func init() {
 						cs = append(cs, mkCase("", "c01", "HStep", cfg, kind, s, t))
 					}
 				}
+				// relative operands after Chdir
+				for s := int64(1); s <= 4; s++ {
+					for t := int64(0); t < 15; t++ {
+						cs = append(cs, mkCase("", "c01", "HRel", cfg, kind, s, t))
+					}
+				}
 				for t := int64(0); t < 15; t++ {
 					switch t {
 					case 0, 2, 4, 6, 9: // Mkdir, OpenFile, Remove, Rename, Truncate
@@ -38,11 +44,11 @@ func init() {
 			}
 			return []group{{Tags: "", Pkgs: []string{"c01"}, Cases: cs}}
 		},
-		Reach:       []string{"step", "unclean", "temp"},
+		Reach:       []string{"step", "unclean", "temp", "relative"},
 		Explanation: "Differential bounded symbolic execution: every namespace call template (Mkdir, MkdirAll, OpenFile with symbolic flags/perm and optional write, WriteFile, Remove, RemoveAll, Rename, Link, Symlink, Truncate, Chmod, Chown, Lchown, Chtimes, Stat) of MemFS and OrefaFS (Linux emulation, administrator) is executed symbolically in the same run as posixref, a reference model of package os on Linux (/verif/harness/posix); operands range over a 9-path depth-2 universe built on four seed trees, scalars are symbolic; after the call the errno and the whole observable tree (type, permission bits, owner, size, content, link count, link target, directory listings of every universe path) must be equal for every value of the symbolic inputs. Natively every explored path is replayed on MemFS/OrefaFS, on the model and on the real kernel (package os on a tmpfs scratch directory): a model/kernel disagreement is an ORACLE mismatch (exit 3), never a violation. Also: unclean path == Clean(path) on twin instances with n symbolic bytes; CreateTemp/MkdirTemp under the symbolic random-name stub.",
 		Bounds: func(tier string) map[string]any {
 			b := map[string]any{"history_length": 1, "seed_trees": "S0..S4", "universe_paths": 9, "flag_bits": "O_ACCMODE|O_CREATE|O_EXCL|O_TRUNC|O_APPEND (access mode 3 excluded)", "perm_bits": "0o777 for creation, 0o7777 for Chmod", "uid_gid": "-1..70000", "truncate_size": "-2..4", "unclean_symbolic_bytes": 3,
-				"outside": "longer histories, deeper trees, Chdir/relative paths, flag bits outside the mask, O_SYNC, non-administrator users (C03)"}
+				"relative_operands": "after Chdir to /w or /w/a: 9 relative spellings (plain, ../x, ., .., empty, ./x, x/../y), one relative operand per call", "outside": "longer histories, deeper trees, flag bits outside the mask, O_SYNC, non-administrator users (C03)"}
 			if tier == "thorough" {
 				b["history_length"] = "1, and 2 from seed S1 with a successful first step in {Mkdir 0750, OpenFile O_WRONLY|O_CREATE|O_TRUNC 0640 writing one byte, Remove, Rename, Link, Symlink, Truncate to 1} over all universe operands (a failing first step leaves the tree unchanged, asserted, and is therefore covered by length 1)"
 				b["unclean_symbolic_bytes"] = 5
